@@ -103,11 +103,11 @@ Lemma remove_binding_ok s pe r : is_ok (remove_binding true s pe r).
 Proof. unfold remove_binding. ok_all. Qed.
 #[local] Hint Resolve add_subscription_ok remove_subscription_ok add_binding_ok remove_binding_ok : okdb.
 
-Lemma make_feature_ok dev t0 fd : is_ok (make_feature true dev t0 fd).
+Lemma make_feature_ok dev fd : is_ok (make_feature true dev fd).
 Proof. unfold make_feature. ok_all. Qed.
 #[local] Hint Resolve make_feature_ok : okdb.
 
-Lemma make_features_ok dev t0 e l : is_ok (make_features true dev t0 e l).
+Lemma make_features_ok dev e l : is_ok (make_features true dev e l).
 Proof.
   induction l as [|[fd|] r IH]; simpl.
   - apply ok_ok.
@@ -134,7 +134,7 @@ Proof.
     destruct (N.eqb n n0); [inversion H; subst; discriminate | discriminate].
 Qed.
 
-Lemma add_entities_ok initial t0 d l : forall pe, is_ok (add_entities true initial t0 pe d l).
+Lemma add_entities_ok initial d l : forall pe, is_ok (add_entities true initial pe d l).
 Proof.
   induction l as [|ei r IH]; intros pe; simpl.
   - apply ok_ok.
@@ -182,7 +182,7 @@ Proof. unfold process_result, ret. ok_all. Qed.
 Lemma reg_outcome_ok s r : is_ok r -> is_ok (reg_outcome s r).
 Proof. intro H. unfold reg_outcome, ret. apply bind_ok; [exact H|]. intros [s1 err]. apply ok_ok. Qed.
 
-Lemma nm_handle_ok s pe en rf h k c fp : is_ok (nm_handle true s pe en rf h k c fp).
+Lemma nm_handle_ok s pe rf h k c fp : is_ok (nm_handle true s pe rf h k c fp).
 Proof.
   unfold nm_handle, ret.
   repeat (first
@@ -211,7 +211,7 @@ Proof.
 Qed.
 #[local] Hint Resolve process_write_ok : okdb.
 
-Lemma feature_handle_ok s pe en rf lf h k c fp fd : is_ok (feature_handle true s pe en rf lf h k c fp fd).
+Lemma feature_handle_ok s pe rf lf h k c fp fd : is_ok (feature_handle true s pe rf lf h k c fp fd).
 Proof.
   unfold feature_handle, ret.
   repeat (first
@@ -263,7 +263,7 @@ Lemma step_res_ok s o : is_ok (step_res true s o).
 Proof.
   destruct o as [p|p|p [d|]|p c]; simpl; try apply ok_ok.
   - destruct (find_peer s p); apply ok_ok.
-  - destruct (find_peer s p); [|apply ok_ok]. apply bind_ok; [apply process_cmd_ok|]. intros [s1 o]. apply ok_ok.
+  - destruct (find_peer s p); [apply process_cmd_ok | apply ok_ok].
   - destruct (find_peer s p); [apply process_cmd_ok | apply ok_ok].
 Qed.
 
@@ -354,15 +354,15 @@ Proof.
         apply eqb_ln_eq in E2. rewrite <- Hx in E2. rewrite <- E2 in E. rewrite eqb_ln_refl in E. discriminate.
 Qed.
 
-Lemma add_entities_nm initial t0 d l : forall pe pe1 err,
-  add_entities true initial t0 pe d l = Ok (pe1, err) -> has_nm pe -> has_nm pe1 /\ p_ski pe1 = p_ski pe.
+Lemma add_entities_nm initial d l : forall pe pe1 err,
+  add_entities true initial pe d l = Ok (pe1, err) -> has_nm pe -> has_nm pe1 /\ p_ski pe1 = p_ski pe.
 Proof.
   induction l as [|ei r IH]; intros pe pe1 err H Hnm; simpl in H.
   - inversion H; subst. split; [exact Hnm | reflexivity].
   - destruct (check_entity true initial pe ei) as [[[ed ea] e]|] eqn:Hc; [|inversion H; subst; split; [exact Hnm | reflexivity]].
     apply check_entity_nonempty in Hc.
     destruct (find (fun x => eqb_ln (re_addr x) e) (p_ents pe)) as [en0|] eqn:Hfind; simpl in H.
-    + destruct (make_features true _ t0 e (d_feats d)) as [fs|] eqn:Hfs; simpl in H; [|discriminate].
+    + destruct (make_features true _ e (d_feats d)) as [fs|] eqn:Hfs; simpl in H; [|discriminate].
       apply IH in H; [exact H|].
       unfold has_nm. cbn [p_ents].
       apply (upsert_keeps_nm (p_ents pe) e _ false Hnm); [reflexivity | | discriminate].
@@ -374,7 +374,7 @@ Proof.
         -- apply orb_false_iff in Ex. destruct Ex as [E1 E2]. rewrite E1. apply IHf. exact E2.
     + destruct (ed_type ed); simpl in H; [|inversion H; subst; split; [exact Hnm | reflexivity]].
       destruct e as [|x e]; [congruence|]. simpl in H.
-      destruct (make_features true _ t0 (x :: e) (d_feats d)) as [fs|] eqn:Hfs; simpl in H; [|discriminate].
+      destruct (make_features true _ (x :: e) (d_feats d)) as [fs|] eqn:Hfs; simpl in H; [|discriminate].
       apply IH in H; [exact H|].
       unfold has_nm. cbn [p_ents].
       apply (upsert_keeps_nm (p_ents pe) (x :: e) _ true Hnm); [reflexivity | | intros _; exact Hfind].
@@ -448,46 +448,15 @@ Proof. intros [H1 H2] [H3 H4]. split; [auto | congruence]. Qed.
 Lemma good_same_peers s s1 : peers s1 = peers s -> good s s1.
 Proof. intro H. unfold good, inv, skis. rewrite H. split; [trivial | reflexivity]. Qed.
 
-Lemma sync_entries_good s a b : good s (sync_entries s a b).
-Proof. apply good_same_peers. reflexivity. Qed.
-
-Lemma mark_dirty_good s pe en rf : has_nm pe -> good s (mark_dirty s pe en rf).
-Proof.
-  intros [en0 [rf0 [H1 H2]]]. unfold mark_dirty. split.
-  - intro Hi. apply set_peer_inv; [exact Hi|].
-    unfold has_nm. cbn [p_ents].
-    set (dirty := fun f : rfeat => if N.eqb (rf_id f) (rf_id rf)
-                   then {| rf_id := rf_id f; rf_dev := rf_dev f; rf_type := rf_type f; rf_role := rf_role f;
-                           rf_obj := rf_obj f; rf_sig := rf_sig f; rf_dirty := true |} else f).
-    set (g := fun x : rent => if eqb_ln (re_addr x) (re_addr en)
-                   then {| re_addr := re_addr x; re_dev := re_dev x; re_feats := map dirty (re_feats x); re_gen := re_gen x |}
-                   else x).
-    assert (Hd : forall l, find (fun x => N.eqb (rf_id x) 0) l = Some rf0 ->
-                 exists r, find (fun x => N.eqb (rf_id x) 0) (map dirty l) = Some r).
-    { induction l as [|f l IH]; simpl; [discriminate|].
-      assert (Hid : rf_id (dirty f) = rf_id f) by (unfold dirty; destruct (N.eqb (rf_id f) (rf_id rf)); reflexivity).
-      rewrite Hid. destruct (N.eqb (rf_id f) 0); [intros _; eexists; reflexivity | exact IH]. }
-    assert (Hg : forall l, find isnm l = Some en0 -> find isnm (map g l) = Some (g en0)).
-    { induction l as [|x l IH]; simpl; [discriminate|].
-      assert (Ha : isnm (g x) = isnm x) by (unfold isnm, g; destruct (eqb_ln (re_addr x) (re_addr en)); reflexivity).
-      rewrite Ha. destruct (isnm x); [intro H; inversion H; reflexivity | exact IH]. }
-    destruct (eqb_ln (re_addr en0) (re_addr en)) eqn:E.
-    + destruct (Hd _ H2) as [r Hr]. exists (g en0), r. split; [apply Hg; exact H1|].
-      unfold g. rewrite E. cbn [re_feats]. exact Hr.
-    + exists (g en0), rf0. split; [apply Hg; exact H1|]. unfold g. rewrite E. exact H2.
-  - apply (set_peer_skis s pe). reflexivity.
-Qed.
-
 Lemma reply_discovery_good s pe d s1 err :
   reply_discovery true s pe d = Ok (s1, err) -> has_nm pe -> good s s1.
 Proof.
   unfold reply_discovery. intros H Hnm.
   destruct (d_devinfo d) as [[da|]|]; try (inversion H; subst; apply good_refl).
-  destruct (add_entities true true _ _ d (d_ents d)) as [[pe1 e1]|] eqn:Ha; simpl in H; [|discriminate].
+  destruct (add_entities true true _ d (d_ents d)) as [[pe1 e1]|] eqn:Ha; simpl in H; [|discriminate].
   apply add_entities_nm in Ha; [|exact Hnm]. destruct Ha as [Hnm1 Hski]. cbn [p_ski] in Hski.
-  assert (G1 : good s (sync_entries (set_peer s pe1) pe pe1)).
-  { eapply good_trans; [|apply sync_entries_good].
-    split; [intro Hi; apply set_peer_inv; assumption | apply (set_peer_skis s pe); exact Hski]. }
+  assert (G1 : good s (set_peer s pe1)).
+  { split; [intro Hi; apply set_peer_inv; assumption | apply (set_peer_skis s pe); exact Hski]. }
   destruct e1; inversion H; subst; [exact G1|].
   eapply good_trans; [exact G1|].
   apply fold_remove_good. apply Forall_forall. intros e He.
@@ -519,10 +488,10 @@ Proof.
     destruct (ed_addr ed) as [ea0|] eqn:Had; [|inversion H; subst; apply good_refl].
     destruct (ed_state ed) as [[| |]|] eqn:Hst; try (inversion H; subst; apply good_refl).
     + destruct (find_peer s p) as [pe|] eqn:Hf; [|inversion H; subst; apply good_refl].
-      destruct (add_entities true false (tick s) pe d [Some ed]) as [[pe1 e1]|] eqn:Ha; [|discriminate].
+      destruct (add_entities true false pe d [Some ed]) as [[pe1 e1]|] eqn:Ha; [|discriminate].
       cbn [bind] in H.
-      assert (G1 : good s (sync_entries (set_peer s pe1) pe pe1)).
-      { eapply good_trans; [|apply sync_entries_good]. split.
+      assert (G1 : good s (set_peer s pe1)).
+      { split.
         - intro Hi. apply add_entities_nm in Ha; [|eapply inv_find; eassumption].
           apply set_peer_inv; [exact Hi | apply Ha].
         - destruct (find_peer_in _ _ _ Hf) as [Hin _].
@@ -565,13 +534,12 @@ Proof. unfold add_binding, no_client. intro H. crush H; reflexivity. Qed.
 Lemma remove_binding_peers s pe r s1 b : remove_binding true s pe r = Ok (s1, b) -> peers s1 = peers s.
 Proof. unfold remove_binding, no_client. intro H. crush H; reflexivity. Qed.
 
-Lemma nm_handle_good s pe en rf h k c fp s1 o e :
-  nm_handle true s pe en rf h k c fp = Ok (s1, o, e) -> has_nm pe -> good s s1.
+Lemma nm_handle_good s pe rf h k c fp s1 o e :
+  nm_handle true s pe rf h k c fp = Ok (s1, o, e) -> has_nm pe -> good s s1.
 Proof.
   unfold nm_handle, process_result, reg_outcome, ret. intros H Hnm.
   crush H;
     try apply good_refl;
-    try (destruct (registered (rf_type rf) F_USECASE); [apply mark_dirty_good; exact Hnm | apply good_refl]);
     try (apply good_same_peers;
          first [ eapply add_subscription_peers; eassumption | eapply remove_subscription_peers; eassumption
                | eapply add_binding_peers; eassumption | eapply remove_binding_peers; eassumption ]);
@@ -585,15 +553,12 @@ Proof.
   unfold process_write, ret. intro H. crush H; try reflexivity; destruct (N.eqb fn F_CONS); reflexivity.
 Qed.
 
-Lemma feature_handle_good s pe en rf lf h k c fp fd s1 o e :
-  feature_handle true s pe en rf lf h k c fp fd = Ok (s1, o, e) -> has_nm pe -> good s s1.
+Lemma feature_handle_good s pe rf lf h k c fp fd s1 o e :
+  feature_handle true s pe rf lf h k c fp fd = Ok (s1, o, e) -> has_nm pe -> good s s1.
 Proof.
   unfold feature_handle, process_result, ret. intros H Hnm.
   crush H; try apply good_refl;
-    try match goal with |- good _ (match ?x with _ => _ end) => destruct x end;
-    try apply good_refl;
-    first [ apply mark_dirty_good; exact Hnm
-          | apply good_same_peers; eapply process_write_peers; eassumption ].
+    apply good_same_peers; eapply process_write_peers; eassumption.
 Qed.
 
 Lemma process_cmd_good s pe d s1 o :
@@ -683,7 +648,7 @@ Proof.
       { destruct (memN p m) eqn:E; [|reflexivity]. apply Hm, find_peer_skis in E. destruct E as [pe E]. congruence. }
       rewrite Hn. split; [reflexivity|]. split.
       * unfold inv. cbn [peers]. apply Forall_app. split; [exact Hi|].
-        constructor; [|constructor]. exists {| re_addr := [0%N]; re_dev := None; re_feats := [nm_feature None 0]; re_gen := 0 |}, (nm_feature None 0).
+        constructor; [|constructor]. exists {| re_addr := [0%N]; re_dev := None; re_feats := [nm_feature None] |}, (nm_feature None).
         split; reflexivity.
       * intro q. unfold skis. cbn [peers]. rewrite map_app, in_app_iff. cbn [map p_ski new_peer In memN existsb].
         unfold memN in *. cbn [existsb]. rewrite orb_true_iff, N.eqb_eq. rewrite (Hm q). unfold skis. intuition congruence.
@@ -699,10 +664,8 @@ Proof.
     rewrite crash_free. split; [reflexivity|].
     simpl in Hs. destruct d as [d|]; [|inversion Hs; subst; split; assumption].
     destruct (find_peer s p) as [pe|] eqn:Hf; [|inversion Hs; subst; split; assumption].
-    destruct (process_cmd true s pe d) as [[s2 o2]|] eqn:Hp; cbn [bind] in Hs; [|discriminate].
-    inversion Hs; subst; clear Hs.
-    apply process_cmd_good in Hp; [|eapply inv_find; eassumption].
-    destruct Hp as [G1 G2]. split; [apply G1; exact Hi|]. intro q. unfold skis, bump in *. cbn [peers]. rewrite G2. apply Hm.
+    apply process_cmd_good in Hs; [|eapply inv_find; eassumption].
+    destruct Hs as [G1 G2]. split; [auto|]. intro q. rewrite G2. apply Hm.
   - (* Probe *)
     simpl in Hs. destruct (find_peer s p) as [pe|] eqn:Hf.
     + assert (Hmem : memN p m = true) by (apply Hm, find_peer_skis; eexists; exact Hf).
